@@ -14,10 +14,10 @@ FileAlphabet == [n \in {InAlphabet[i].n : i \in DOMAIN InAlphabet} |->
 FileGen == InGen
 FileCharsets == InCharsets
 Row == [s |-> str, h |-> out.h, x |-> out.x, u |-> out.u, entity |-> out.entity, trim |-> out.trim,
-        unescape |-> der.dent.val,
+        unescape |-> der.dent.val, ltrim |-> LStripWs(str), rtrim |-> RStripWs(str),
         dec |-> [k \in DOMAIN out.dec |-> out.dec[k].val], enc |-> der.enc]
 MCNext == Next /\ PrintT(ToJson(Row'))
 MCSpec == Init /\ [][MCNext]_vars
-ASSUME PrintT(ToJson([s |-> <<>>, h |-> <<>>, x |-> <<>>, u |-> <<>>, entity |-> <<>>, trim |-> <<>>, unescape |-> <<>>,
+ASSUME PrintT(ToJson([s |-> <<>>, h |-> <<>>, x |-> <<>>, u |-> <<>>, entity |-> <<>>, trim |-> <<>>, unescape |-> <<>>, ltrim |-> <<>>, rtrim |-> <<>>,
                       dec |-> [k \in {"str", "bytes", "obj"} |-> <<>>], enc |-> [cs \in InCharsets |-> <<>>]]))
 =============================================================================
